@@ -34,7 +34,7 @@ BASES = [('bool',), ('int',), ('enum', (('a', 0), ('b', 5))), ('bits',), ('octs'
 
 
 def plan(tier, seed):
-    return C.plan_counts(tier, 16 * 2500, 16 * 60000)
+    return C.plan_counts(tier, 16 * 7500, 16 * 60000)
 
 
 def gen_stack(rng, base):
